@@ -66,8 +66,11 @@ def rand_format(r):
 def cases(tier, seed, shard, nshards):
     r = rng_for(seed, shard, "c06")
     n = tier_pick(tier, 96000, 5000000) // nshards
-    for _ in range(n):
+    for i in range(n):
         yield {"lib": rand_library(r), "fmt": rand_format(r)}
+        if i % 400 == 0:
+            # a library built in code (no source text anywhere): two blocks sharing a key, the library wraps the second one
+            yield {"lib": [], "fmt": rand_format(r), "noraw": r.choice(["entry", "string"])}
 
 
 def expected_fields(entry_spec, indent, col, tc):
@@ -89,6 +92,20 @@ def check(case, ctx):
     indent, col, tc, sep = fs[:4]
     fcomment = fs[4] if fs[4] is not None else "% WARNING Parsing failed for the following {n} lines."
     lib = build.library(specs)
+    if case.get("noraw"):
+        from bibtexparser import model as M
+        ctx.mon("library_built_in_code")
+        a, b = ((M.Entry("article", "k", [M.Field("t", "{1}")]), M.Entry("book", "k", [M.Field("u", "{2}")])) if case["noraw"] == "entry"
+                else (M.String("s", "{1}"), M.String("s", "{2}")))
+        lib = Library([a, b])
+        st, text = sp.escape(lambda: writer.write(lib, build.fmt(fs)))
+        ctx.ran()
+        if st == "raise":
+            return [Violation("raised", f"C06:raise:{text.split(':')[0]}:failed-block-without-raw", dict(error=text, case=case))]
+        first = writer.write(Library([a]), build.fmt(fs))
+        if not text.startswith(first.rstrip("\n")):
+            return [Violation("content", "C06:library-built-in-code:first-block-not-written", dict(text=text, case=case))]
+        return []
     if ctx.cases % 2:
         F = build.fmt(fs)
     else:
